@@ -208,6 +208,9 @@ inductive Op (K : Type) where
   | setOrigin (o : V3 K)
   /-- `system.pbc = p` -/
   | setPbc (p : V3 Bool)
+  /-- `system.atoms.pos = p` / `atoms_prop('pos', value=p)` / an in-place edit of the position array: the
+      Cartesian positions are replaced (same number of atoms), the box and its cache are not touched -/
+  | setPos (p : List (V3 K))
 
 inductive Obs (K : Type) where
   | unit
@@ -234,6 +237,7 @@ def stepC (P : Params K) (c : CSys K) : Op K → CSys K × Obs K
   | .setVects v => (c.setVects P.tiny v, .unit)
   | .setOrigin o => (c.setOrigin o, .unit)
   | .setPbc p => ({ c with pbc := p }, .unit)
+  | .setPos p => ({ c with pos := p }, .unit)
 
 /-- the same operation in the functional reading. -/
 def step (P : Params K) (s : Sys K) : Op K → Sys K × Obs K
@@ -251,6 +255,7 @@ def step (P : Params K) (s : Sys K) : Op K → Sys K × Obs K
   | .setVects v => (s.setBox P.tiny v s.box.origin, .unit)
   | .setOrigin o => ({ s with box := ⟨s.box.vects, o⟩ }, .unit)
   | .setPbc p => ({ s with pbc := p }, .unit)
+  | .setPos p => ({ s with pos := p }, .unit)
 
 /-- a history: the final object and everything observed on the way. -/
 def runC (P : Params K) : CSys K → List (Op K) → CSys K × List (Obs K)
